@@ -987,6 +987,12 @@ func c10Windows(th []int) (ls []int, which []int) {
 }
 
 func c10Main(c *Ctx) {
+	{
+		world.NewIdP()
+		up := world.NewUpstream("conc")
+		c10Concurrent(c, up)
+		up.Close()
+	}
 	e := &c10Env{c: c, th: map[string][]int{}, best: map[string]int{}, byCanon: map[string]string{}, sampled: map[string]bool{}}
 	plans := c10Plans(c.Quick())
 	thInfo := map[string][]int{}
